@@ -69,6 +69,23 @@ CLAIMED = {
             "LoadConstant from load() compared.",
             "General Sum values generated well-typed only.",
             "DESIGN.md §5 C14"),
+    "C04": ("TLA+ spec HugrStore.tla (hierarchical port multigraph, bag of links): TLC complete state graph with invariants and "
+            "per-action laws + per-state replay into hugr.Hugr (S->C) + TLC trace validation of long random histories (C->S)",
+            "TLC explores the complete graph of the store model for 2 non-root nodes / offsets {-1,0} / <=2 links (NoDangling, TreeShape, "
+            "PortCountsCover, AddLink/DeleteLink/DeleteNode exactness). One behaviour per distinct model state is replayed on a real Hugr "
+            "and every C04 query (iteration, len, lookup, parent, ordered children, links(), linked_ports both ends, incoming/outgoing and "
+            "order-link listings, has_link, port counts, handle counts) compared; random histories of 30-300 calls over <=12 nodes and two "
+            "stores incl. insert_hugr are executed on the real class and validated step by step by Trace_HugrStore.",
+            "Node ids up to the bijection from returned handles; links as bags; port counts by >=; non-leaf deletion outside the property.",
+            "DESIGN.md §5 C04"),
+    "C08": ("TLA+ HugrStore!InsertHugr with action property InsertIsIso over two stores: TLC over all pairs (A,B) x parents + replay of "
+            "post-insertion states (S->C) + trace validation of real insertions (C->S)",
+            "TLC checks InsertIsIso (bijection onto new nodes, ops / child order / metadata / output counts / bag of links incl. order "
+            "links preserved, root image last child of the parent, A's nodes and links unchanged, B unchanged) on every reachable pair "
+            "of small stores and parent; a sample of the post-insertion states is replayed on two real Hugrs; random two-store histories "
+            "with frequent insertions (B with deleted nodes, multi-links, order links) are validated by Trace_HugrStore.",
+            "insert_nested/insert_cfg/insert_conditional/insert_tail_loop are covered by the builder checks (C01/C16) when present.",
+            "DESIGN.md §5 C08"),
 }
 
 NOT_YET = "check not built yet in this round (planned: see DESIGN.md §5); nothing is claimed for it until its TLA+ spec and conformance legs exist"
